@@ -9,7 +9,8 @@ META = {
              'the declared variant that passes validation is encodable and reads back bit-identical at every type shape and '
              'depth (induction over the nested FieldType), each single violation (variant, null, map key set, key kind, tuple '
              'arity, NaN, range, budget - at any depth) makes validate fail, normalize is idempotent, upgrade chains never '
-             'reuse a retired index and keep surviving fields; tied to the source by regenerated match-arm tables, step '
+             'reuse a retired index, and an old document reads under the upgraded schema restricted to what it declares - '
+             'top-level fields and keys of nested structs at any depth (inside every element of homogeneous arrays, tuples, maps, options); tied to the source by regenerated match-arm tables, step '
              'orders and budget constants, and by a correspondence run of the model against the real cbor2 encode -> '
              'DocumentOwned -> Document::try_from_doc path on grammar-generated (type, value) pairs, single mutations, '
              'upgrade chains and derive-macro structs.'),
@@ -19,8 +20,8 @@ META = {
              '>= 1e5 bit patterns per run, every bf16 pattern included). cbor2 + serde are not modelled: `readback` is the model '
              'of their combined effect and is what the correspondence run tests. Outside the declared variant the round trip '
              'is false of the code (known finding untyped-vector-unreadable; Option(Json) Json(null) reads as Null) - both '
-             'carried as _refuted lemmas. upgrade_preserves is partial (equal surviving types proved, nested-struct key '
-             'changes exercised only).'),
+             'carried as _refuted lemmas. The nested-upgrade theorems exclude a struct turning into the untyped Map({}) or back '
+             '(compat_ne), where nothing is pruned or normalised.'),
     'technique': 'Coq proof (custom induction over nested inductives) + translator-generated facts + differential model/impl run + direct oracle',
 }
 
@@ -50,8 +51,9 @@ def run(ck):
                '(i64::MIN/MAX, u64::MAX, -0.0, subnormals, f32::MAX, infinities, bf16 edge patterns), its schema-less read-back '
                'shape, single mutations (wrong variant, null, NaN, tuple arity, undeclared / missing key, wildcard key kind, '
                'over budget), arbitrary type-independent values, a fixed budget battery at and one over each bound, upgrade '
-               'chains (add optional / remove / re-add / nested key gain or loss / illegal steps) with documents of every '
-               'earlier version, a fixed derive-macro battery; non-trivial = a distinct model-compared case on a composite, '
+               'chains (add optional / remove / re-add / nested key gain or loss at any depth / illegal steps) with documents of every '
+               'earlier version, single-field evolutions of nested structs inside arrays (>= 2 elements), tuples, wildcard maps and options '
+               'with a document written under the old type and an independent projection as the expected read-back, a fixed derive-macro battery; non-trivial = a distinct model-compared case on a composite, '
                'Json, Vector, F32 or I64 type, or an upgrade / document case')
     ck.translate(only=['gen_schema'])
     ck.coq(['Schema/Props.v'], ['Schema'], model_targets=['Schema/Run.vo'])
@@ -65,9 +67,9 @@ def run(ck):
         ck.finish()
     out = ck.work + '/c13.jsonl'
     args = ['c13', '--out', out] + (
-        ['--valid', '2400', '--mutations', '2400', '--wild', '1200', '--model-every', '4', '--floats', '120000', '--chains', '250', '--chain-model-every', '3']
+        ['--valid', '2200', '--mutations', '2200', '--wild', '1000', '--model-every', '5', '--floats', '120000', '--chains', '220', '--chain-model-every', '3', '--evolutions', '1500', '--evolution-model-every', '8']
         if quick else
-        ['--valid', '40000', '--mutations', '40000', '--wild', '15000', '--model-every', '8', '--floats', '1000000', '--chains', '3000', '--chain-model-every', '10'])
+        ['--valid', '40000', '--mutations', '40000', '--wild', '15000', '--model-every', '24', '--floats', '1000000', '--chains', '3000', '--chain-model-every', '30', '--evolutions', '30000', '--evolution-model-every', '60'])
     rc, text = ck.run_harness(binary, args, timeout=3000)
     ok = ck.ob('harness c13 ran', rc == 0 and os.path.exists(out), 'correspondence', text[-2000:])
     if not ok:
@@ -81,9 +83,10 @@ def run(ck):
     # ---- direct oracle on the implementation
     for f in summary['failures']:
         ck.violation(f.get('class', 'oracle'), f.get('what', ''), True, {'failing_input': f})
-    unknown = [f for f in summary['failures'] if f.get('class') != 'untyped-vector-unreadable']
+    known = {k.get('class') for k in __import__('vlib').known_findings() if k.get('property') == 'C13' and k.get('status') == 'open'}
+    unknown = [f for f in summary['failures'] if f.get('class') not in known]
     ck.ob('implementation: accepted values read back valid and unchanged, violations rejected, upgrades keep indexes and fields '
-          '(%d evaluations; known class untyped-vector-unreadable aside)' % summary['evaluations'],
+          '(%d evaluations; known open classes aside)' % summary['evaluations'],
           not unknown, 'correspondence', json.dumps(unknown[:2])[:3000])
     fh = summary['float_hypotheses'] or {}
     ck.ob('IEEE premises hold against Rust casts on %s bit patterns' % fh.get('patterns'), fh.get('violations') == 0, 'correspondence', json.dumps(fh))
